@@ -131,6 +131,12 @@ def run(ctx):
     from .. import cover
     cover.cover_rule(P, r, 'xor_bufs_and_store', [0], 1, 2)
     r.require_min(1)
+    if ctx.flavour == 'configured':
+        # the property names both build flavours: the kernel of the portable build (no -m*/-DINTEL_* flags) is decided on every run too
+        rp = ctx.rule('R05g.portable', 'XOR kernel of the portable build flavour (no SSE2): wide loop + byte tail cover every byte of the block',
+                      'the #else half of the kernel is not compiled by the configured build and not run by the suite')
+        cover.cover_rule(ctx.program('portable'), rp, 'xor_bufs_and_store', [0], 1, 2)
+        rp.require_min(1)
     r = ctx.rule('R05h', 'xor_reconstruct_one falls back to the full decoder with the complete erasure list',
                  'a decoder that does not know which parities are erased solves with a zero-filled placeholder')
     xorrules.reconstruct_fallback_rule(P, r)
